@@ -5286,6 +5286,7 @@ class Generator:
             [
                 exp.alias_(e.expression, e.name if e.this.is_string else e.this)
                 if isinstance(e, exp.PropertyEQ)
+                and (e.this.is_string or isinstance(e.this, exp.Identifier))
                 else e
                 for e in expression.expressions
             ],
